@@ -139,6 +139,12 @@ def run_check(pid, tier, modname):
     prep = getattr(mod, "prepare", None)
     pre = prep(tier, seed) if prep else {}
     jobs = mod.jobs(tier, seed)
+    # debugging aid for runs against seeded changes (tools/seed.py): restrict to the jobs whose JSON contains the
+    # substring.  A filtered run can report violations but never "held" (it is inconclusive otherwise).
+    jfilter = os.environ.get("SX_JOB_FILTER")
+    all_jobs = len(jobs)
+    if jfilter:
+        jobs = [j for j in jobs if jfilter in json.dumps(j, default=str)]
     nproc = int(os.environ.get("VERIF_JOBS", "0") or 0) or min(16, os.cpu_count() or 4)
     results = []
     if nproc > 1 and len(jobs) > 1:
@@ -169,6 +175,8 @@ def run_check(pid, tier, modname):
 
     known = [k for k in load_known().get("findings", []) if k.get("property") == pid and k.get("status") == "finding"]
     inconclusive = list(st.get("failures", []))
+    if jfilter:
+        inconclusive.append(f"job filter {jfilter!r} active: {len(jobs)} of {all_jobs} jobs run")
     violations, known_hits, replayed = [], {}, 0
     allv = [v for r in results for v in r["violations"]]
     allw = [w for r in results for w in r["witnesses"]]
